@@ -34,6 +34,8 @@ type runner struct {
 	removed []map[int]bool
 	readded []map[int]bool
 	joined  []map[int]int64
+	redel   []map[int]bool
+	book    []map[int]*stakeBook
 }
 
 func newRunner(seed int64, modules []string, rep *lib.Report) *runner {
@@ -45,7 +47,10 @@ func newRunner(seed int64, modules []string, rep *lib.Report) *runner {
 		r.removed = append(r.removed, map[int]bool{})
 		r.readded = append(r.readded, map[int]bool{})
 		r.joined = append(r.joined, map[int]int64{})
+		r.redel = append(r.redel, map[int]bool{})
+		r.book = append(r.book, map[int]*stakeBook{})
 		m.view0 = v.coq()
+		m.vals0 = coqDeleg(v.Vals)
 		m.initArg = fmt.Sprintf("%d %d %d %s %d %s %d", v.Height, int64(r.w.c.Ctx.BlockTime().Sub(lib.GenesisTime).Seconds()),
 			r.w.ubtime, v.Threshold, v.Multiple, v.Fraction, v.Window)
 	}
@@ -55,7 +60,26 @@ func newRunner(seed int64, modules []string, rep *lib.Report) *runner {
 // do executes one operation, records the model step(s) and runs the monitor.
 func (r *runner) do(op Op) (class int) {
 	r.hist.Ops = append(r.hist.Ops, op)
+	var valsBefore [][3]*big.Int
+	if op.K == "slashval" {
+		valsBefore = r.w.mods[0].view().Vals
+	}
 	res := r.w.apply(op)
+	if op.K == "slashval" && op.V >= 0 && op.V < len(valsBefore) {
+		// the validators are shared by the modules: scale the booked stake of every oracle delegating to V
+		after := r.w.mods[0].view().Vals
+		t0, t1 := valsBefore[op.V][1], after[op.V][1]
+		for mi := range r.w.mods {
+			for _, rec := range r.pre[mi].Recs {
+				if b := r.book[mi][rec.A]; b != nil && rec.V == op.V && t0.Sign() > 0 && t1.Cmp(t0) != 0 {
+					e := new(big.Int).Quo(new(big.Int).Mul(b.expected, t1), t0)
+					b.losses.Add(b.losses, new(big.Int).Sub(b.expected, e))
+					b.expected = e
+					b.events++
+				}
+			}
+		}
+	}
 	for _, a := range res {
 		m := r.w.mods[a.mod]
 		post := m.view()
@@ -76,11 +100,18 @@ func (r *runner) do(op Op) (class int) {
 				for _, rec := range pre.Recs {
 					if pre.inProp(rec.A) && !hasInt(op.L, rec.A) {
 						r.removed[a.mod][rec.A] = true
+						if b := r.book[a.mod][rec.A]; b != nil {
+							b.expected = big.NewInt(0)
+						}
 					}
 				}
 			case "bond":
 				r.removed[a.mod][op.A], r.readded[a.mod][op.A] = false, false
 				r.joined[a.mod][op.A] = pre.Height
+				r.book[a.mod][op.A] = &stakeBook{expected: bigOf(op.Amt), losses: big.NewInt(0)}
+				if !pre.rateOne(op.V) {
+					r.book[a.mod][op.A].events = 1
+				}
 			case "add":
 				if r.removed[a.mod][op.A] {
 					r.readded[a.mod][op.A] = true
@@ -88,11 +119,23 @@ func (r *runner) do(op Op) (class int) {
 				if r0 := pre.rec(op.A); r0 != nil && !r0.Online {
 					r.joined[a.mod][op.A] = pre.Height
 				}
+				if r0, b := pre.rec(op.A), r.book[a.mod][op.A]; r0 != nil && b != nil {
+					b.expected.Add(b.expected, new(big.Int).Sub(bigOf(op.Amt), penalty(r0, pre.Fraction)))
+					if !pre.rateOne(r0.V) {
+						b.events++
+					}
+				}
+			case "redel":
+				if b := r.book[a.mod][op.A]; b != nil && (!pre.rateOne(op.V) || !pre.rateOne(pre.rec(op.A).V)) {
+					b.events++
+				}
+			case "unbond":
+				delete(r.book[a.mod], op.A)
 			}
 		}
 		var vio []violation
-		vio = append(vio, checkStep(op, a.class, r.pre[a.mod], post, r.joined[a.mod])...)
-		vio = append(vio, checkState(post, r.readded[a.mod])...)
+		vio = append(vio, checkStep(op, a.class, r.pre[a.mod], post, r.joined[a.mod], r.redel[a.mod])...)
+		vio = append(vio, checkState(post, r.readded[a.mod], r.book[a.mod])...)
 		for _, v := range vio {
 			key := fmt.Sprintf("%s/%d/%s", v.sig, a.mod, strings.SplitN(v.what, ":", 2)[0])
 			if r.fails[key] {
@@ -103,8 +146,26 @@ func (r *runner) do(op Op) (class int) {
 			h.Ops = append([]Op{}, r.hist.Ops...)
 			r.rep.Fail(lib.Failure{Kind: "monitor", What: fmt.Sprintf("[%s] %s", m.name, v.what), Sig: v.sig, Replay: h})
 		}
+		if op.K == "redel" && a.class == 0 {
+			r.redel[a.mod][op.A] = true
+		}
 		r.pre[a.mod] = post
 		class = a.class
+	}
+	if op.K != "block" && op.K != "slashval" && len(res) == 1 {
+		// the validators are shared: what this operation did to them is an environment step for the other modules
+		cur := r.pre[res[0].mod].Vals
+		for o, m := range r.w.mods {
+			if o == res[0].mod {
+				continue
+			}
+			for i := range cur {
+				if cur[i][1].Cmp(r.pre[o].Vals[i][1]) != 0 || cur[i][2].Cmp(r.pre[o].Vals[i][2]) != 0 {
+					m.steps = append(m.steps, fmt.Sprintf("(EnvVal %d %s %s, 0, [DVal (%d, %s, %s)])", i, cur[i][1], cur[i][2], i, cur[i][1], cur[i][2]))
+				}
+			}
+			r.pre[o].Vals = cur
+		}
 	}
 	return class
 }
@@ -126,7 +187,7 @@ func (r *runner) coqCases() []string {
 	}
 	for _, m := range r.w.mods {
 		// mk_orc_case accs orcs exts vals h t ub thr mul frac win view0 steps
-		out = append(out, fmt.Sprintf("mk_orc_case %s %s %s [0; 1; 2] %s\n    %s\n    [%s]", lib.List(accs), lib.List(orcs), lib.List(exts),
+		out = append(out, fmt.Sprintf("mk_orc_case %s %s %s %s %s\n    %s\n    [%s]", lib.List(accs), lib.List(orcs), lib.List(exts), m.vals0,
 			m.initArg, m.view0, strings.Join(m.steps, ";\n     ")))
 	}
 	return out
@@ -164,7 +225,8 @@ func main() {
 		lib.Must(os.MkdirAll(corpusDir, 0o755))
 		for i, sc := range scripted() {
 			b, _ := json.MarshalIndent(History{Seed: 1000 + int64(i), Modules: []string{"eth", "bsc"}, Ops: sc}, "", " ")
-			name := []string{"A-C13-1-withdraw-after-maturity", "B-C13-1-withdraw-before-maturity", "C-C13-2-add-delegate-after-removal"}[i]
+			name := []string{"A-C13-1-withdraw-after-maturity", "B-C13-1-withdraw-before-maturity", "C-C13-2-add-delegate-after-removal",
+				"D-validator-slashed-then-redelegate-removal-withdraw"}[i]
 			lib.Must(os.WriteFile(filepath.Join(corpusDir, name+".json"), b, 0o644))
 		}
 	}
@@ -313,5 +375,18 @@ func scripted() [][]Op {
 	c = append(c, Op{K: "add", M: 0, A: 3, Amt: fx(8000)}, Op{K: "block"})
 	c = append(c, Op{K: "gov", M: 0, L: []int{1, 2, 3, 4, 5, 6}}, Op{K: "gov", M: 0, L: []int{0, 1, 2, 3, 4, 5, 6}},
 		Op{K: "add", M: 0, A: 0, Amt: "1"}, Op{K: "block", Dt: mature}, Op{K: "block"}, Op{K: "withdraw", M: 0, A: 0})
-	return [][]Op{a, b, c}
+	// D: the staking module slashes validator 0 by 5 %; afterwards oracle 1 (validator 1) re-delegates to the slashed
+	//    validator 0 and back is refused only by staking's own transitive rule, oracle 3 (validator 0) moves to
+	//    validator 2, governance removes oracle 0 (validator 0): what is undelegated is the remaining 9500 FX,
+	//    it matures, the withdrawal pays exactly that once
+	d := setup()
+	d = append(d, confirmAll(1, -1)...)
+	d = append(d, Op{K: "slashval", M: 0, V: 0, Amt: "50000000000000000"},
+		Op{K: "redel", M: 0, A: 3, V: 2}, Op{K: "redel", M: 0, A: 1, V: 0},
+		Op{K: "gov", M: 0, L: []int{1, 2, 3, 4, 5, 6}}, Op{K: "block"})
+	d = append(d, confirmAll(2, 0)...)
+	d = append(d, Op{K: "add", M: 0, A: 6, Amt: fx(500)}, // oracle 6 is on validator 0: new shares at the new rate
+		Op{K: "slashval", M: 0, V: 2, Amt: "100000000000000"}, Op{K: "block", Dt: mature}, Op{K: "block"},
+		Op{K: "unbond", M: 0, A: 0}, Op{K: "unbond", M: 0, A: 0}, Op{K: "gov", M: 0, L: []int{1, 2, 4, 5, 6}}, Op{K: "block"})
+	return [][]Op{a, b, c, d}
 }
